@@ -61,6 +61,12 @@ def catalogue():
     def _(wn):
         wn.add_junction("J" + "x" * 30, base_demand=0.003, elevation=4.0, coordinates=(30.0, 20.0))      # 31 characters
         wn.add_pipe("P" + "y" * 30, "J3", "J" + "x" * 30, length=80.0, diameter=0.15, roughness=95.0)
+    @dev("shared_names")
+    def _(wn):
+        # node and link identifiers are separate name spaces: a junction called like a pipe, a pipe called like a junction
+        wn.add_junction("p2", base_demand=0.002, elevation=2.0, coordinates=(25.0, 15.0))
+        wn.add_pipe("J2", "J2", "p2", length=60.0, diameter=0.1, roughness=110.0)
+        wn.add_pattern("p1", [1.0, 0.9]); wn.add_curve("J1", "HEAD", [(0.0, 30.0), (0.02, 20.0), (0.04, 5.0)])
     @dev("pat_long")
     def _(wn):
         wn.add_pattern("p30", [0.4 + 0.07 * ((i * 7) % 13) for i in range(30)])
